@@ -94,6 +94,7 @@ func (e *Env) SetExternalLookup(externalLookup ExternalLookup) {
 func (e *Env) String() string {
 	var buffer bytes.Buffer
 	e.rwMutex.RLock()
+	defer e.rwMutex.RUnlock()
 
 	if e.parent == nil {
 		buffer.WriteString("No parent\n")
@@ -102,6 +103,14 @@ func (e *Env) String() string {
 	}
 
 	for symbol, value := range e.values {
+		if value.IsValid() && value.CanInterface() {
+			if module, ok := value.Interface().(*Env); ok {
+				// a module is a scope of its own, guarded by its own lock: it is named here, not dumped
+				// (%#v would walk its tables while other goroutines define symbols in it)
+				buffer.WriteString(fmt.Sprintf("%v = module %p\n", symbol, module))
+				continue
+			}
+		}
 		buffer.WriteString(fmt.Sprintf("%v = %#v\n", symbol, value))
 	}
 
@@ -109,7 +118,6 @@ func (e *Env) String() string {
 		buffer.WriteString(fmt.Sprintf("%v = %v\n", symbol, aType))
 	}
 
-	e.rwMutex.RUnlock()
 	return buffer.String()
 }
 
